@@ -208,6 +208,12 @@ def _roundtrip(fmt):
             k.ad.r_set_weight(h, k.ad.record_of_key(key, 2), T["edges"][key][0] + 0.5)
             then.append(["set_weight", k.probe(key), T["edges"][key][0] + 0.5])
             ctx.label("float_weight")
+            if len(T["order"]) > 2:
+                # a weight of exactly 0 is a weight too (falsy values must survive the format)
+                key0 = T["order"][2]
+                k.ad.r_set_weight(h, k.ad.record_of_key(key0, 4), 0)
+                then.append(["set_weight", k.probe(key0), 0])
+                ctx.label("zero_weight")
         loaded, what = round_trip(" (after %r)" % (then[-2:],))
         # the loaded object is the same hypergraph: the same further calls (a new hyperedge on
         # possibly new nodes, then the removal of an old hyperedge) lead to the same observation
